@@ -57,6 +57,22 @@ def cases(ctx):
         yield {"op": "insert_registers", "c": proj(c), "k": r.choice([1, 1, 2, 3]), "src": "G3"}
         if j % 4 == 0:
             yield {"op": "insert_registers", "c": proj(c), "k": r.choice([1, 2]), "latch": True, "src": "G3"}
+    from .C18 import rand_cyclic
+
+    n = 0
+    for j in range(300):
+        p = rand_cyclic(ctx.rng("C05cyc", j))
+        if p is not None and "x" not in p["ty"]:
+            n += 1
+            yield {"op": "limit_fanout", "c": p, "k": 2, "src": "CYC"}
+            yield {"op": "limit_fanin", "c": p, "k": 2, "src": "CYC"}
+            if n >= (20 if ctx.quick else 200):
+                break
+    # the same (combinational) argument twice: nothing of the first call may be left behind
+    for j in range(25 if ctx.quick else 250):
+        r = ctx.rng("C05twice", j)
+        c = gen.rand_circuit(r, n_in=r.randint(2, 4), n_gates=r.randint(3, 9), max_fanin=3)
+        yield {"op": "insert_registers", "c": proj(c), "k": r.choice([1, 2]), "twice": True, "src": "TWICE"}
     # FO: one driver (input / gate / inverter / output gate) with fan-out 1..9, k = 2..5
     for drv in ("input", "and", "not", "outgate", "const"):
         for m in range(1, 10):
@@ -118,6 +134,11 @@ def run_case(case, ctx):
                 r = cg.tx.insert_registers(c, case["k"], ff=cg.BlackBox("lat", ["d"], ["q"]), other_flop_io={})
             else:
                 r = cg.tx.insert_registers(c, case["k"])
+                if case.get("twice"):
+                    # the same argument again: the first call must not have left anything behind (in the argument or elsewhere)
+                    r2 = cg.tx.insert_registers(c, case["k"])
+                    if proj(r2) != proj(r):
+                        raise RuntimeError("second call on the same argument gave a different circuit")
     except Exception as e:  # recorded, judged by the specification
         exc = type(e).__name__
     ev = {"kind": case["op"], "k": case["k"], "c": case["c"], "exc": exc, "r": proj(r) if r is not None else {},
@@ -140,7 +161,7 @@ def negctl(e, rng):
     """Invert the type of one ORIGINAL gate in the recorded result (circuits without x constants only): its
     function is complemented, so the function clause of that node must fail whatever the circuit is."""
     r = copy.deepcopy(e.get("r") or {})
-    if not r or not r.get("n") or "x" in e["c"]["ty"]:
+    if not r or not r.get("n") or "x" in e["c"]["ty"] or not e["c"].get("acyc", True):      # cyclic arguments: structural clauses only
         return []
     flip = {"and": "nand", "nand": "and", "or": "nor", "nor": "or", "xor": "xnor", "xnor": "xor", "buf": "not", "not": "buf"}
     orig = set(e["c"]["names"])
